@@ -262,6 +262,41 @@ func (w *Workspace) UpdateFile(path, content string) {
 	if !sameStringSlice(oldIncludes, fileIndex.Includes) {
 		w.refreshIncludeTreeLocked()
 	}
+	w.orderFilesLocked()
+}
+
+// orderFilesLocked puts the member files into the order in which a load of the
+// root journal visits them (depth first along the include directives as
+// written, each file once), whatever the order in which edits made them join.
+func (w *Workspace) orderFilesLocked() {
+	if w.resolved == nil || w.resolved.Primary == nil {
+		return
+	}
+	visited := map[string]bool{w.rootJournalPath: true}
+	order := make([]string, 0, len(w.resolved.FileOrder))
+	var walk func(path string, journal *ast.Journal)
+	walk = func(path string, journal *ast.Journal) {
+		if journal == nil {
+			return
+		}
+		for _, inc := range includePathsInOrder(path, journal.Includes) {
+			included, member := w.resolved.Files[inc]
+			if visited[inc] || !member {
+				continue
+			}
+			visited[inc] = true
+			order = append(order, inc)
+			walk(inc, included)
+		}
+	}
+	walk(w.rootJournalPath, w.resolved.Primary)
+	for _, path := range w.resolved.FileOrder {
+		if _, member := w.resolved.Files[path]; member && !visited[path] {
+			visited[path] = true
+			order = append(order, path)
+		}
+	}
+	w.resolved.FileOrder = order
 }
 
 func (w *Workspace) buildIndexFromResolvedLocked() {
